@@ -41,12 +41,14 @@ constexpr auto shift_right(BidiIt first, BidiIt last, typename etl::iterator_tra
     for (; src != first; --dest, (void)--src) {
         *dest = etl::move(*src);
     }
+    *dest = etl::move(*src);
 
     // Elements outside the new range should be left in a valid but unspecified state.
     // If the value type has a default constructor we do a little cleanup.
     using value_type = typename etl::iterator_traits<BidiIt>::value_type;
     if constexpr (is_default_constructible_v<value_type>) {
-        for (; dest != first; --dest) {
+        while (dest != first) {
+            --dest;
             *dest = value_type{};
         }
     }
